@@ -537,7 +537,9 @@ fn is_changed_after_unmarking_chemistry(mathml: Element) -> bool {
             // debug!("After merge_element: -- parent{}", mml_to_string(&parent));
 
         } else if let Some(changed_value) = mathml.attribute_value(CHANGED_ATTR) {
-            if changed_value == ADDED_ATTR_VALUE {
+            // only what was not in the input can be removed (invisible operators, empty placeholders) -- a token with content has the mark
+            // when it took the place of an added mrow (e.g., 'x' or '1.5' left over from an mstyle with several children)
+            if changed_value == ADDED_ATTR_VALUE && as_text(mathml).trim().chars().all(|ch| ('\u{2061}'..='\u{2064}').contains(&ch)) {
                 mathml.remove_from_parent();
                 return true;
             }
